@@ -163,12 +163,13 @@ func (g *gen) relevantTimeout(i int) (int, cstypes.RoundStepType, bool) {
 
 // policy of the generic driver: who may receive what
 type policy struct {
-	nodes      []int
-	allowMsg   func(i, k int, m msg) bool
-	allowBlock func(i, b int) bool
-	allowFire  func(i, r int) bool
-	chaos      int // per mille: fire a relevant timeout although deliveries are pending
-	dup        int // per mille: re-deliver something already delivered
+	nodes       []int
+	allowMsg    func(i, k int, m msg) bool
+	allowBlock  func(i, b int) bool
+	allowFire   func(i, r int) bool
+	anyProposal bool // also deliver proposals of other rounds / when the node already has one
+	chaos       int  // per mille: fire a relevant timeout although deliveries are pending
+	dup         int  // per mille: re-deliver something already delivered
 }
 
 type cand struct {
@@ -197,6 +198,10 @@ func (g *gen) drive(p policy, cond func() bool, maxOps int) {
 			}
 			for k, m := range g.nt.log {
 				if g.delivered[i][k] || m.sender == i {
+					continue
+				}
+				// like the reactor, hand a proposal only to a node that is in its round and lacks one
+				if m.prop && !p.anyProposal && (m.r != g.round(i) || g.rs(i).Proposal != nil) {
 					continue
 				}
 				if p.allowMsg == nil || p.allowMsg(i, k, m) {
@@ -294,8 +299,8 @@ func genHappy(r *rand.Rand) core.Case {
 		faulty = pickFaulty(r, w) // silent
 	}
 	g := newGen(r, w, faulty, r.Intn(3) != 0, r.Intn(10) == 0, false)
-	chaos := []int{0, 0, 15, 40, 100}[r.Intn(5)]
-	g.drive(policy{nodes: g.correctL, chaos: chaos, dup: 20}, func() bool { return g.allDone(g.correctL) }, 260+60*g.n)
+	chaos := []int{0, 0, 10, 30, 80}[r.Intn(5)]
+	g.drive(policy{nodes: g.correctL, chaos: chaos, dup: 20, anyProposal: r.Intn(4) == 0}, func() bool { return g.allDone(g.correctL) }, 260+60*g.n)
 	if g.allDone(g.correctL) {
 		gstat("happy.all-correct-nodes-decided")
 	}
@@ -402,6 +407,9 @@ func (s *sched) move() {
 			}
 		}
 		fallthrough
+	case x < 100: // a burst of ordinary network activity (within the partition, if any)
+		s.drive(policy{nodes: s.correctL, allowMsg: func(i, k int, m msg) bool { return s.visible(i, k) }, chaos: 30, dup: 30},
+			func() bool { return false }, 4+r.Intn(22))
 	case x < 560: // deliver
 		i := s.pickNode()
 		if !s.started[i] && r.Intn(3) != 0 {
@@ -592,9 +600,32 @@ func (s *sched) byz() {
 	}
 }
 
-func genSched(r *rand.Rand, thorough bool) core.Case {
+// a random faulty set with 3*power(F) >= total that leaves at least two correct nodes
+func pickHeavyFaulty(r *rand.Rand) (*world, []int) {
+	for {
+		w := pickWorld(r)
+		n := w.n()
+		var f []int
+		var p int64
+		for _, i := range r.Perm(n) {
+			if len(f) < n-2 && (3*p < w.total || r.Intn(3) == 0) {
+				f = append(f, i)
+				p += w.powers[i]
+			}
+		}
+		if 3*p >= w.total {
+			sort.Ints(f)
+			return w, f
+		}
+	}
+}
+
+func genSched(r *rand.Rand, thorough, heavy bool) core.Case {
 	w := pickWorld(r)
 	faulty := pickFaulty(r, w)
+	if heavy {
+		w, faulty = pickHeavyFaulty(r)
+	}
 	g := newGen(r, w, faulty, r.Intn(3) != 0, r.Intn(8) == 0, r.Intn(12) == 0)
 	s := &sched{gen: g, group: make([]int, g.n), side: map[int]int{}}
 	target := 40 + r.Intn(111)
@@ -627,6 +658,9 @@ func genSched(r *rand.Rand, thorough bool) core.Case {
 			break
 		}
 		s.move()
+	}
+	if heavy {
+		return g.finish("unsafe")
 	}
 	return g.finish("sched")
 }
@@ -855,7 +889,50 @@ func genLockPartition(r *rand.Rand) core.Case {
 
 // ---- kind unsafe: faulty power >= 1/3, the faulty validators make two correct nodes decide differently ----
 
+// a faulty validator above 2/3 drives a correct node into the panics of enterPrecommit /
+// finalizeCommit (invalid block) or into waiting for a block nobody has
+func genUnsafeHeavy(r *rand.Rand) core.Case {
+	w := getWorld([]int64{100, 1, 1, 1})
+	f := w.proposers[0]
+	if 3*w.powers[f] <= 2*w.total {
+		return genSched(r, false, true)
+	}
+	g := newGen(r, w, []int{f}, r.Intn(2) == 0, false, false)
+	n := g.n
+	for _, c := range g.correctL {
+		g.start(c)
+		b := []int{n + 2, n + 2, n + 3, n}[r.Intn(4)]
+		kp := g.byzProp(f, 0, b, -1, true)
+		kv := g.byzVote(f, "pv", 0, b, true)
+		kc := g.byzVote(f, "pc", 0, b, true)
+		var steps []func()
+		steps = append(steps, func() { g.deliver(c, kp) }, func() { g.deliver(c, kv) })
+		if b <= n+2 {
+			steps = append(steps, func() { g.block(c, b) })
+		}
+		if r.Intn(2) == 0 {
+			steps = append(steps, func() { g.deliver(c, kc) })
+		}
+		r.Shuffle(len(steps), func(a, b int) { steps[a], steps[b] = steps[b], steps[a] })
+		for _, s := range steps {
+			s()
+		}
+		g.deliver(c, kc)
+		if b <= n+2 {
+			g.block(c, b)
+		}
+		g.deliver(c, kp)
+	}
+	return g.finish("unsafe")
+}
+
 func genUnsafe(r *rand.Rand) core.Case {
+	switch r.Intn(8) {
+	case 0, 1:
+		return genSched(r, false, true) // the random scheduler outside the fault assumption
+	case 2:
+		return genUnsafeHeavy(r)
+	}
 	var w *world
 	var F []int
 	var corr []int
@@ -947,17 +1024,17 @@ func genKind(r *rand.Rand, kind string) core.Case {
 	case "unsafe":
 		return genUnsafe(r)
 	default:
-		return genSched(r, kind == "sched-long")
+		return genSched(r, kind == "sched-long", false)
 	}
 }
 
 func genAll(r *rand.Rand, tier string, emit func(core.Case)) {
-	nSched, nHappy, nLock, nUnsafe := 220, 110, 60, 30
+	nSched, nHappy, nLock, nUnsafe := 1400, 600, 350, 150
 	if tier == "thorough" {
-		nSched, nHappy, nLock, nUnsafe = 2200, 1100, 600, 300
+		nSched, nHappy, nLock, nUnsafe = 7000, 3000, 1750, 750
 	}
 	for i := 0; i < nSched; i++ {
-		emit(genSched(r, tier == "thorough"))
+		emit(genSched(r, tier == "thorough", false))
 	}
 	for i := 0; i < nHappy; i++ {
 		emit(genHappy(r))
